@@ -587,6 +587,13 @@ def shapes(tier, seed):
             out.append(Shape(f"random/{nm}", h_random, dict(ops=ops, n=n, func_ops=fops), modules=MODS, max_paths=64))
             if nm in ("cm-dict", "cm-func") or tier == "thorough":
                 out.append(Shape(f"random/{nm}/shots2", h_random, dict(ops=ops, n=n, func_ops=fops, shots=2), modules=MODS, max_paths=128))
+    # registers + recorded measurements beyond 10 values per shot (the order of the recorded values must be numeric, not textual);
+    # basis-state permutations only, so exactly one sample is possible
+    wide_ops = [("g", "X", [1], []), ("g", "X", [4], []), ("g", "CNOT", [9], [4]), ("m", 4), ("g", "X", [4], []), ("g", "CNOT", [7], [1]), ("m", 9),
+                ("g", "X", [0], [])]
+    for (n_, ii) in ((10, None), (10, 5), (9, None)) + (((11, 1027),) if tier == "thorough" else ()):
+        wo = [op for op in wide_ops if n_ > 9 or 9 not in (list(op[2]) + list(op[3]) if op[0] == "g" else [op[1]])]
+        out.append(Shape(f"allshots/wide{n_}/shots2/init={ii}", h_allshots, dict(ops=wo, n=n_, shots=2, init_index=ii), modules=MODS, max_paths=64))
     out.append(Shape("canary/desired/sign", h_desired, dict(ops=SHAPES1["m0"][0], n=2, outcome="1", init=False, canary=True),
                      modules=MODS, canary=True))
     for nm in ("m0", "m1-m0", "3q"):
